@@ -77,6 +77,13 @@ def r_edit(prog, tier):
             rootvar = unparse(dd[0])[len('terminals('):-1] if over_all else None
         amount = isinstance(n.ast.op, ast.Sub) and unparse(n.ast.value) == '1'
         ok = True if (bool(g) and src_ok and over_all and amount) else None
+        nested_in_while = [l for l in n.loops if cfg.nodes[l].kind == 'test']
+        if ok and nested_in_while:
+            ok = False
+            why_nested = 'the renumbering loop runs inside `while %s`: tokens to the right are decremented once per removed ' \
+                         'node, not once per deleted token' % unparse(cfg.nodes[nested_in_while[0]].ast)[:50]
+        else:
+            why_nested = None
         if ok is None:
             rel = [fa for fa in facts if fa[0] == 'cmp' and T in (fa[1], fa[3])]
             if rel and not g and all(fa[2] in ('<', '<=', '==', '!=') for fa in rel):
@@ -85,7 +92,7 @@ def r_edit(prog, tier):
                 ok = False
             elif not rel:
                 ok = False      # every token is renumbered, whatever its position
-        why = 'tokens with number > the removed one are decremented by 1, over all terminals of the root' if ok else \
+        why = why_nested if why_nested else 'tokens with number > the removed one are decremented by 1, over all terminals of the root' if ok else \
             'guard `removed < token number`: %s, removed number taken from the leaf: %s, loop over all terminals: %s, ' \
             'amount 1: %s' % (bool(g), src_ok, over_all, amount)
     obs.append(Ob('R-EDIT/SHIFT', f.fq, 'deleting a token renumbers exactly the tokens to its right by -1', ok, why,
@@ -456,8 +463,26 @@ def r_labelfields(prog, tier):
     obs.append(Ob('R-LABELFIELDS', 'trees.parse_label', 'the separator recorded is the one used for splitting', okp,
                   'default or the gf_separator option' if okp else 'recorded separator `%s`' % sepv,
                   construct='gfsep-rec', line=pf.node.lineno))
-    # default suppression in format_label
+    # the index part is built up: gap index first, co-index added to it
     cfg = ff.cfg
+    for nm2 in sorted(ff.locals):
+        defs = name_defs(ff, nm2)
+        inits = [d for d in defs if isinstance(d[1], ast.Constant) and d[1].value == '']
+        contrib = [d for d in defs if d not in inits]
+        if len(inits) != 1 or len(contrib) < 2:
+            continue
+        if not all(('gapindex' in unparse(d[1][1] if isinstance(d[1], tuple) else d[1]) or
+                    'coindex' in unparse(d[1][1] if isinstance(d[1], tuple) else d[1])) for d in contrib):
+            continue
+        plain = [d for d in contrib if isinstance(d[1], ast.AST) and nm2 not in [x.id for x in ast.walk(d[1]) if isinstance(x, ast.Name)]]
+        # a plain assignment that can follow another contribution throws that contribution away
+        bad = [d for d in plain if any(o[0] != d[0] and d[0] in cfg.reach(o[0]) for o in contrib)]
+        obs.append(Ob('R-LABELFIELDS', 'trees.format_label', 'gap index and co-index are both kept in `%s`' % nm2,
+                      False if bad else True,
+                      '`%s = %s` replaces what was collected before it: a label with gap index and co-index loses one of them'
+                      % (nm2, unparse(bad[0][1])[:40]) if bad else 'every contribution after the first is added',
+                      construct='index-acc:' + nm2, line=ff.node.lineno))
+    # default suppression in format_label
     for (fld, dflt, opt) in (('label', 'DEFAULT_LABEL', 'always_label'), ('gf', 'DEFAULT_EDGE', 'always_gf')):
         ok = False
         wrong = None
